@@ -150,6 +150,64 @@ func windowStored() [][2]int {
 	return out
 }
 
+// deadlinesMonotonic: which clock the time-out is measured on. The model's times are readings of one clock that never
+// jumps; in Go that is the monotonic reading a time.Time carries when it comes from time.Now() and has not been
+// stripped (Round, Truncate, UTC, In, Local, a trip through an integer). A record that never completes is pushed into a
+// fresh Reassembler and everything reachable from the Reassembler is walked through reflection; for every non-zero
+// time.Time found (the event's deadline, however the field is called) the answer is whether it carries a monotonic
+// reading. The pushed message's own Timestamp is zero and therefore not among them.
+func deadlinesMonotonic() []bool {
+	r, err := libaudit.NewReassembler(5, time.Hour, &lifeStream{})
+	if err != nil {
+		fatal("NewReassembler: %v", err)
+	}
+	defer r.Close()
+	r.PushMessage(&auparse.AuditMessage{RecordType: 1300, Sequence: 77})
+	var out []bool
+	seen := map[uintptr]bool{}
+	timeT := reflect.TypeOf(time.Time{})
+	var walk func(v reflect.Value, depth int)
+	walk = func(v reflect.Value, depth int) {
+		if depth > 12 || !v.IsValid() {
+			return
+		}
+		if v.Type() == timeT {
+			wall, ext := v.Field(0), v.Field(1)
+			if wall.Kind() == reflect.Uint64 && ext.Kind() == reflect.Int64 && (wall.Uint() != 0 || ext.Int() != 0) {
+				out = append(out, wall.Uint()&(1<<63) != 0)
+			}
+			return
+		}
+		switch v.Kind() {
+		case reflect.Ptr:
+			if v.IsNil() || seen[v.Pointer()] {
+				return
+			}
+			seen[v.Pointer()] = true
+			walk(v.Elem(), depth+1)
+		case reflect.Interface:
+			if !v.IsNil() {
+				walk(v.Elem(), depth+1)
+			}
+		case reflect.Struct:
+			for i := 0; i < v.NumField(); i++ {
+				walk(v.Field(i), depth+1)
+			}
+		case reflect.Slice, reflect.Array:
+			for i := 0; i < v.Len() && i < 64; i++ {
+				walk(v.Index(i), depth+1)
+			}
+		case reflect.Map:
+			it := v.MapRange()
+			for n := 0; it.Next() && n < 64; n++ {
+				walk(it.Value(), depth+1)
+			}
+		}
+	}
+	walk(reflect.ValueOf(r), 0)
+	return out
+}
+
 func genReasmFactsImpl() {
 	var life [65536]int
 	for t := 0; t < 65536; t++ {
@@ -180,6 +238,15 @@ func genReasmFactsImpl() {
 			b.WriteString(", ")
 		}
 		fmt.Fprintf(&b, "(%d, %d)", w[0], w[1])
+	}
+	b.WriteString("]\n")
+	b.WriteString("/-- for every non-zero time.Time reachable from a Reassembler that buffers one event: does it carry a monotonic clock reading -/\n")
+	b.WriteString("def deadlinesMonotonic : List Bool := [")
+	for i, m := range deadlinesMonotonic() {
+		if i > 0 {
+			b.WriteString(", ")
+		}
+		fmt.Fprintf(&b, "%v", m)
 	}
 	b.WriteString("]\n")
 	b.WriteString("end LA.Gen.ReasmFacts\n")
